@@ -121,7 +121,8 @@ def shard_exotic(args):
     """Long / many-run / unusual-character values: splice at every pair of boundary points with every replacement value."""
     tier, seed, idx = args
     acc = Acc(seed=seed)
-    specs = C.exotic_specs()
+    specs = C.exotic_specs() + C.huge_specs()
+    nsmall = len(C.exotic_specs())
     news = [make_new(ns) for ns in NEW_SPECS]
     news_cells = [C.cells(n) for n in news]
     for si in range(idx, len(specs), 16):
@@ -133,7 +134,7 @@ def shard_exotic(args):
             continue
         snap = C.snapshot(f)
         n = len(fcells)
-        pts = [p_ for p_ in C.boundary_points(spec) if 0 <= p_ <= n + 2]
+        pts = [p_ for p_ in (C.boundary_points(spec) if si < nsmall else C.few_points(spec, 14)) if 0 <= p_ <= n + 2]
         for ni in (1, 3, 4, 0, 6):
             for start in pts:
                 for end in [None] + [e for e in pts if e >= start]:
